@@ -173,8 +173,10 @@ func unify(pt, t *Term, b bindings) (bindings, bool) {
 	if t == nil {
 		return nil, false
 	}
-	if pt.Op == "choice" && t.Op == "choice" {
-		return unifyChoice(pt.Args, t.Args, b)
+	if pt.Op == "choice" && (t.Op == "choice" || t.Op == "gate") {
+		// a pattern that does not care which alternative is taken when also
+		// matches alternatives that carry their condition (gate)
+		return unifyChoice(pt.Args, flattenAlts(t), b)
 	}
 	if pt.Op != t.Op || len(pt.Args) != len(t.Args) {
 		return nil, false
@@ -345,4 +347,35 @@ func canon(t *Term) *Term {
 		}
 		return &Term{Op: "choice", Args: args}
 	})
+}
+
+// flattenAlts lists the alternatives of a choice / gate term (nested ones
+// flattened, duplicates removed), dropping gate conditions.
+func flattenAlts(t *Term) []*Term {
+	uniq := map[string]*Term{}
+	var add func(x *Term)
+	add = func(x *Term) {
+		switch x.Op {
+		case "choice", "alt", "phi":
+			for _, a := range x.Args {
+				add(a)
+			}
+		case "gate":
+			add(x.Args[1])
+			add(x.Args[2])
+		default:
+			uniq[x.String()] = x
+		}
+	}
+	add(t)
+	keys := make([]string, 0, len(uniq))
+	for k := range uniq {
+		keys = append(keys, k)
+	}
+	sort.Strings(keys)
+	out := make([]*Term, len(keys))
+	for i, k := range keys {
+		out[i] = uniq[k]
+	}
+	return out
 }
